@@ -46,3 +46,6 @@ def run(ctx):
         n = len(re.findall(r"&\s*%s\b" % e["flag"], body))
         ctx.ob(rule, e["flag"], n >= 1, "c/tskit/tables.c (simplifier_*)", "%s tested %d time(s)" % (e["flag"], n))
     lib_mem.c_lints(ctx, ctx.program(), scopes.lib_scope("C04"))
+    from . import lib_kind5
+    lib_kind5.validate_before_clear(ctx, ctx.program())
+    lib_kind5.simplify_reduce_every_edge(ctx, ctx.program())
